@@ -13,3 +13,4 @@ open GV.MerkleTreeGen
 #print axioms C16tree_start
 #print axioms C16tree_root_eq_MTH
 #print axioms C16tree_prove_verifies
+#print axioms C16tree_readAll
